@@ -537,6 +537,16 @@ def main_check(check, tier=None):
     for cls in new_classes[3:]:
         print(f"  (further unlisted violation class not minimised: {cls}, {len(by_class[cls])} runs)")
         nviol += 1
+    if not agg["samples"] and agg["runs"] > 0:
+        # make sure the evidence shows at least one actual case of this run
+        try:
+            r0 = one_run(check, seed, 0, tier, keep_trace=True)
+            cj = json.dumps(r0["case"], default=_jsonable)
+            agg["samples"].append({"run_index": 0, "case": json.loads(cj) if len(cj) < 6000 else cj[:6000] + " ...(truncated)",
+                                   "digest": r0["digest"], "choices_made": len(r0["trace"]),
+                                   "violations": [vclass(x) for x in r0["violations"]]})
+        except Exception as e:  # noqa: BLE001
+            agg["samples"].append(f"(sample run failed: {e!r})")
     path = write_evidence(check, tier, seed, agg, len(new_classes), extra_cov)
     wall = time.time() - t0
     print(f"{check.PROP} tier={tier} seed={seed} runs={agg['runs']} distinct={len(agg['digests'])} "
